@@ -192,6 +192,17 @@ CHECKS = {
         "Quadrature converges geometrically for polynomial x Gaussian integrands; only the exponent window 0.3-3 is covered.",
         "DESIGN.md 6/C16",
     ),
+    "C19": (
+        "stateful property-based testing: Hypothesis RuleBasedStateMachine over a shared object pool with byte-level "
+        "snapshot, error-state and fresh-copy (history-independence) invariants after every step",
+        "Generated call histories (valid calls of 31 public functions, 23 kinds of invalid call, parameter changes through "
+        "the setters, renormalisation, numpy error-state changes): after every step all pooled arguments/shells are "
+        "bit-identical to the model, numpy.geterr() is what the machine set, a valid call equals the same call on never "
+        "shared copies, shells are unit-normalised as constructed and after assign_norm_cont().",
+        "Histories up to 20 (quick) / 25 (thorough) steps; only object kinds in the pool. Failing histories are stored as "
+        "plain step lists and replayed through the same interpreter without Hypothesis. D7 and D9 were found here / in C18.",
+        "DESIGN.md 6/C19",
+    ),
 }
 
 NOT_YET = "check not built yet in this revision (planned, see DESIGN.md section 6)"
